@@ -1305,6 +1305,14 @@ func (r *EngineRunner) Exec(f []string) (res string) {
 		return r.execLock(f)
 	case "concsched", "concpark", "concstress", "concmix", "concbg":
 		return r.execConc(f)
+	case "shardcount": // E shardcount <requested>: the shard count NewShardedIndex derives from a requested ShardNum
+		n := index.VerifNextPowerOfTwo(atoi(f[2]))
+		if n < 1 || n&(n-1) != 0 {
+			r.fail("C14", "a requested shard count of %s gives %d shards: not a positive power of two, the shard of a key (hash & (n-1)) is out of range", f[2], n)
+		}
+		return fmt.Sprintf("ok %d", n)
+	case "shards": // E shards: the number of shards the open database runs with
+		return fmt.Sprintf("ok %d", r.db.VerifShardCount())
 	case "flipsweep": // E flipsweep <maxflips> <seed> <cfg 6 fields>
 		return r.flipSweep(f[4:10], atoi(f[2]), NewRng(uint64(atou(f[3]))))
 	}
